@@ -345,11 +345,15 @@ class _H(falcon.media.BaseHandler):
         return None
 
 
+class _IterFail(Exception):
+    pass
+
+
 HKEYS = ['application/json', 'application/x', 'a/*']
 RESOLVE_TYPES = [None, '*/*', 'application/json', 'application/json; charset=utf-8', 'application/x', 'a/b', 'a/b+json',
                  'text/plain', 'application/*', 'application/x; v=1']
 H_OPS = {0: 'set', 1: 'del', 2: 'update', 3: 'pop', 4: 'clear', 5: 'setdefault', 6: 'copy-mutate-copy', 7: 'copy-mutate-orig',
-         8: 'resolve'}
+         8: 'resolve', 9: 'update-from-failing-iterable'}
 
 
 def _ref_resolve(mirror, media_type, default):
@@ -398,6 +402,16 @@ def handlers_case(ops, keys, rts, raise_not_found):
         elif op == 5:
             active_h.setdefault(k, new)
             active_m.setdefault(k, new)
+        elif op == 9:
+            # update() from an iterable that raises after its first pair: the pair that was stored counts
+            def _pairs(k=k, new=new):
+                yield (k, new)
+                raise _IterFail()
+            try:
+                active_h.update(_pairs())
+            except _IterFail:
+                pass
+            active_m[k] = new
         elif op == 6:
             c = active_h.copy()
             c[k] = new          # mutating the copy must not affect the original
@@ -486,9 +500,9 @@ def partitions(tier, seed):
                            '%s on every string of %d characters over the alphabet %r: documented errors only%s' % (
                                nm, L, ALPHA, '; equals the char-level reference when unquoted' if which == 0 else '')))
     # handlers: op kinds are the shape, keys / resolve types / raise flag symbolic
-    hist2 = [(8, 0), (8, 2), (0, 0), (8, 1), (8, 3), (0, 1), (8, 4), (8, 5), (8, 7), (8, 6), (2, 2), (5, 0), (1, 0), (3, 5), (4, 7), (1, 7), (0, 7)]
+    hist2 = [(8, 0), (8, 2), (0, 0), (8, 1), (8, 3), (0, 1), (8, 4), (8, 5), (8, 7), (8, 6), (2, 2), (5, 0), (1, 0), (3, 5), (4, 7), (1, 7), (0, 7), (8, 9), (9, 0)]
     hist3 = [(8, 0, 8), (0, 8, 2), (8, 7, 0), (8, 1, 0), (8, 6, 8), (8, 4, 0), (0, 0, 1), (8, 2, 3)]
-    hists = hist2 + hist3 if q else hist2 + hist3 + [(a, b, c) for a in (8, 0) for b in range(8) for c in range(8)]
+    hists = hist2 + hist3 if q else hist2 + hist3 + [(a, b, c) for a in (8, 0) for b in range(10) for c in range(10) if b != 8 or c != 8]
     seen = set()
     for ops in hists:
         if ops in seen:
